@@ -69,7 +69,9 @@ RandOp(x) ==
     [] die = 5 -> [op |-> "set_opt", v |-> RandomElement(OptVals)]
     [] die = 23 -> IF x.rcode = 16 THEN [op |-> "set_rcode", v |-> 0] ELSE [op |-> "clear_opt", v |-> 0]
     [] die = 24 -> [op |-> "set_id", v |-> RandomElement({0, 1, 255, 256, 4660, 65535})]
-    [] die = 25 -> IF x.rcode = 16 THEN [op |-> "set_rcode", v |-> 0] ELSE [op |-> "into_reply", v |-> 0]
+    \* into_reply is modelled in Builder.tla but not generated: what it keeps of the header is the crate's
+    \* choice, not something C02 states
+    [] die = 25 -> [op |-> "set_id", v |-> RandomElement({7, 32768})]
     [] die \in 6 .. 9 /\ Room -> [op |-> "push_q", v |-> RandQuestion(x)]
     [] die \in 10 .. 15 /\ Room -> [op |-> "push_an", v |-> RandRecord(x)]
     [] die \in 16 .. 18 /\ Room -> [op |-> "push_ns", v |-> RandRecord(x)]
